@@ -19,6 +19,7 @@ pub fn runs(property: &str, tier: Tier) -> u64 {
         | "C10" | "C39" | "C31" | "C22" | "C34" => (480, 12000),
         "C40" => (320, 8000),
         "C41" => (480, 12000),
+        "C27" => (192, 8000),
         "C38" => (800, 20000),
         "C07" => (320, 6000),
         "C12" | "C13" | "C14" => (2400, 100000),
@@ -157,6 +158,17 @@ pub fn enga_profile(property: &str, tier: Tier) -> Option<Profile> {
             p.gen.shared_repos = tier == Tier::Thorough;
             p.steps = if tier == Tier::Thorough { 3 } else { 2 };
         }
+        "C27" => {
+            only(&mut p, &[
+                (AddObj, 10), (RemoveObj, 2), (Touch, 4), (AddChild, 6),
+                (AspaChange, 2), (RsyncFail, 3), (RrdpFail, 3), (TaFault, 2),
+                (MftStale, 1),
+            ]);
+            p.corrupt_local = true;
+            p.corrupt_rounds = if tier == Tier::Thorough { 12 } else { 5 };
+            p.big_jumps = false;
+            p.steps = 2;
+        }
         "store-fault" => {
             only(&mut p, &[
                 (AddObj, 8), (RemoveObj, 3), (Touch, 5), (AddChild, 4),
@@ -250,6 +262,18 @@ pub fn describe(property: &str) -> Option<serde_json::Value> {
                       min-refresh) when min-refresh is set and the data set \
                       expires before t + refresh; refresh in {1,10,600,86400}, \
                       min-refresh in {unset,1,60,600,7200}",
+            "C27" => "after a generated world history the files of the local \
+                      cache (stored publication points, store status, stored \
+                      TA certificates, RRDP archives incl. their state \
+                      record, occasionally rsync copies) are corrupted \
+                      (truncation, bit flips, huge or odd values in length-\
+                      like fields, random replacement, zero/0xff runs, \
+                      appended garbage, zero-filled tail) in several rounds \
+                      per world; after each round two real validation runs \
+                      execute in a forked child whose address space is \
+                      limited to the process size plus 1 GiB: each must end \
+                      with a result or a reported failure, never with a \
+                      panic, a signal (abort, allocation failure) or a hang",
             "C41" => "differential pair: after a generated world history the \
                       last run is executed twice from the same cache, without \
                       and with a fault in one repository (unreachable over \
